@@ -634,8 +634,8 @@ def search(ctx, exes):
             continue
         cs = cases[label][:12000]
         # RT_CATCHALL: every byte of the signal / channel objects is a scheduling point (fields the model does not know included)
-        impl = core.run_sharded(["env", "RT_CATCHALL=1", exe], cs)
-        for c, line in zip(cs, impl):
+        scases, impl = core.run_search(ctx, exe, cs)   # plain schedules first, then with every byte of the object a scheduling point
+        for c, line in zip(scases, impl):
             why = core.safe_monitor(MONITORS[label], c, core.parse_trace(line) if line else None, line)
             if why:
                 core.report_violation(ctx, label + "+catchall", c, why, line)
